@@ -20,6 +20,7 @@ import (
 	"encoding/binary"
 	"encoding/hex"
 	"encoding/json"
+	"errors"
 	"fmt"
 	"hash/crc32"
 	"os"
@@ -153,17 +154,69 @@ func c17Collect(s *Server, stream string, want int, watchdog time.Duration) c17G
 	return g
 }
 
+// c17PublishNoVerdict: a publish that failed because something TIMED OUT or
+// the server was not reachable says nothing about this property (the machine
+// may be heavily loaded): such errors make the scenario inconclusive.  A
+// refusal for any other reason (e.g. the encryption nack) is judged.
+func c17PublishNoVerdict(err error) bool {
+	if err == nil {
+		return false
+	}
+	s := strings.ToLower(err.Error())
+	for _, w := range []string{"timed out", "timeout", "deadline exceeded", "context canceled", "no responders", "unavailable"} {
+		if strings.Contains(s, w) {
+			return true
+		}
+	}
+	return false
+}
+
+// c17CreateNoVerdict: a CreateStream that failed because of a timeout or a
+// Raft leadership change (elections happen on a loaded machine) says nothing
+// about this property either.
+func c17CreateNoVerdict(err error) bool {
+	if c17PublishNoVerdict(err) || errors.Is(err, errVfTimeout) {
+		// (errVfTimeout: the harness' own watchdog inside vfCluster.CreateStream)
+		return true
+	}
+	s := strings.ToLower(err.Error())
+	for _, w := range []string{"leadership lost", "leadership transfer", "not the leader", "not leader", "no leader", "no known leader", "node is not the leader"} {
+		if strings.Contains(s, w) {
+			return true
+		}
+	}
+	return false
+}
+
+// c17Publish publishes one value and returns the offset of its ack.  An error
+// that carries no verdict (see c17PublishNoVerdict) is returned with the
+// prefix "inconclusive: "; callers turn that into rep.Inconc, never into a
+// violation.  Only a failure of the resume step that precedes the publish
+// ("Failed to resume stream: ... timed out" — nothing was published yet) is
+// retried, up to 3 times with the same value; a publish whose ACK did not
+// arrive is NOT retried, because the message may have been appended and a
+// second copy would shift every later offset.
 func c17Publish(s *Server, stream string, v []byte) (int64, error) {
-	ctx, cancel := context.WithTimeout(context.Background(), 20*time.Second)
-	defer cancel()
-	resp, err := s.api.Publish(ctx, &client.PublishRequest{Stream: stream, Value: v, AckPolicy: client.AckPolicy_LEADER})
-	if err != nil {
-		return -1, err
+	var last error
+	for attempt := 0; attempt < 3; attempt++ {
+		ctx, cancel := context.WithTimeout(context.Background(), 20*time.Second)
+		resp, err := s.api.Publish(ctx, &client.PublishRequest{Stream: stream, Value: v, AckPolicy: client.AckPolicy_LEADER})
+		cancel()
+		if err == nil {
+			if resp.Ack == nil {
+				return -1, fmt.Errorf("inconclusive: no ack in the publish response")
+			}
+			return resp.Ack.Offset, nil
+		}
+		if !c17PublishNoVerdict(err) {
+			return -1, err
+		}
+		last = err
+		if !strings.Contains(err.Error(), "Failed to resume stream") {
+			break
+		}
 	}
-	if resp.Ack == nil {
-		return -1, fmt.Errorf("no ack")
-	}
-	return resp.Ack.Offset, nil
+	return -1, fmt.Errorf("inconclusive: publish got no verdict: %v", last)
 }
 
 // c17PublishAll publishes vals with `workers` publishers in flight (so that the
@@ -183,7 +236,11 @@ func c17PublishAll(srv *Server, stream string, base int, vals []c17Val, workers 
 			return
 		}
 		if err != nil {
-			first = fmt.Errorf("publish of a %d-byte %s value failed: %v", len(vals[i].V), vals[i].Class, err)
+			if strings.HasPrefix(err.Error(), "inconclusive") {
+				first = err
+			} else {
+				first = fmt.Errorf("publish of a %d-byte %s value failed: %v", len(vals[i].V), vals[i].Class, err)
+			}
 			return
 		}
 		k := int(off) - base
@@ -421,6 +478,10 @@ func TestVerifC17Server(t *testing.T) {
 				req.Encryption = &client.NullableBool{Value: true}
 			}
 			if err := c.CreateStream(req); err != nil {
+				if c17CreateNoVerdict(err) {
+					rep.Inconc(fmt.Sprintf("run %d: creating the stream got no verdict: %v", run, err))
+					return
+				}
 				rep.Violation("C17:create-encrypted-stream-failed", "creating an encrypted stream with a valid master key failed: "+err.Error(), replay)
 				return
 			}
@@ -437,7 +498,11 @@ func TestVerifC17Server(t *testing.T) {
 			for i, v := range vals[:24] {
 				off, err := c17Publish(srv, stream, v.V)
 				if err != nil {
-					rep.Violation("C17:publish-failed", fmt.Sprintf("publish of a %d-byte %s value to the encrypted stream failed: %v", len(v.V), v.Class, err), c17With(replay, "index", i))
+					if strings.HasPrefix(err.Error(), "inconclusive") {
+						rep.Inconc(fmt.Sprintf("run %d: %v", run, err))
+					} else {
+						rep.Violation("C17:publish-failed", fmt.Sprintf("publish of a %d-byte %s value to the encrypted stream failed: %v", len(v.V), v.Class, err), c17With(replay, "index", i))
+					}
 					return
 				}
 				if off != int64(i) {
